@@ -316,6 +316,8 @@ def native_replay(name, n, simplify, present, chain=False):
 
 
 def run(R):
+    from engine.canary import run_canaries
+    run_canaries(R, ('symx',))
     R.assume('A4', 'A5', 'A6')
     R.trust('Schwartz-Zippel over Q: 64-bit random integer Taylor coefficients, error < 2^-50 per obligation')
     R.trust('sympy diff / Matrix.inv / det / simplify are semantics-preserving (A4)')
